@@ -2673,8 +2673,10 @@ class Variogram(object):
             all_params = {}
             # add the parameters for each model, with parameter suffix from 1 to the total number
             for i in range(len(list_model_names)):
+                # the single shared nugget is the last coefficient of the last model's slice only
+                has_nugget = self.use_nugget and i == len(list_model_names) - 1
                 model_params = create_dict_for_model(model_name=list_model_names[i], cof=cof[list_argslices[i]],
-                                                  maxlag=maxlag, maxvar=maxvar, use_nugget=self.use_nugget, id=str(i+1))
+                                                  maxlag=maxlag, maxvar=maxvar, use_nugget=has_nugget, id=str(i+1))
                 all_params.update(model_params)
 
         # for a single model
